@@ -1,6 +1,6 @@
 (* C05 - a PDU behaves as a record of independent fields under any history of operations. *)
 From Coq Require Import List NArith String Bool Lia.
-From O1722 Require Import Bits Host FieldModel Spec SpecProofs RecordTheory AccModel LegacySpec C13Proofs C01Proofs C17Proofs C05Proofs.
+From O1722 Require Import Bits Host FieldModel Spec SpecProofs RecordTheory AccModel LegacySpec Paths C13Proofs C01Proofs C17Proofs C05Proofs.
 From O1722.Generated Require Import Tables.
 Import ListNotations.
 Local Open Scope N_scope.
